@@ -968,7 +968,7 @@ Lemma step_sm_links i s o :
   | _ => s_sm (fst (sys_step i s o)) = s_sm s /\ s_links (fst (sys_step i s o)) = s_links s
   end.
 Proof.
-  destruct o as [c id|c id|h|h|c|n| |ns| |]; cbn [sys_step]; try exact I; try (split; reflexivity).
+  destruct o as [c id|c id|h|h|c|n| |ns| | |]; cbn [sys_step]; try exact I; try (split; reflexivity).
   - destruct (nth_error (cron (s_sm s)) (N.to_nat n)) as [[e c]|]; [|split; reflexivity].
     destruct (ch_drain_all (s_ch s)) as [r k]. split; reflexivity.
   - destruct (ch_drain_all (s_ch s)) as [r k]. split; reflexivity.
@@ -987,7 +987,7 @@ Lemma step_ch i s o :
   | _ => s_ch s
   end.
 Proof.
-  destruct o as [c id|c id|h|h|c|n| |ns| |]; cbn [sys_step]; try reflexivity.
+  destruct o as [c id|c id|h|h|c|n| |ns| | |]; cbn [sys_step]; try reflexivity.
   - destruct (enable _ _ _) as [m s']. reflexivity.
   - destruct (disable _ _) as [m s']. reflexivity.
   - destruct (nth_error (cron (s_sm s)) (N.to_nat n)) as [[e c]|]; [|reflexivity].
@@ -1000,8 +1000,8 @@ Lemma step_rel i s st o :
   Rel i s st -> Rel i (fst (sys_step i s o)) (spec_step (i_hooks i) st o).
 Proof.
   intros [HI HL]. unfold Rel, spec_step. pose proof (step_sm_links i s o) as HS.
-  destruct o as [c id|c id|h|h|c|n| |ns| |].
-  5-10: destruct HS as [E1 E2]; rewrite E1, E2; cbn [induced fst snd fold_left]; split; assumption.
+  destruct o as [c id|c id|h|h|c|n| |ns| | |].
+  5-11: destruct HS as [E1 E2]; rewrite E1, E2; cbn [induced fst snd fold_left]; split; assumption.
   all: clear HS.
   - cbn [sys_step induced fst snd fold_left s_sm s_links]. split; [apply Inv_add, HI | exact HL].
   - cbn [sys_step induced fst snd fold_left s_sm s_links]. split; [apply Inv_remove, HI | exact HL].
@@ -1047,7 +1047,7 @@ Proof.
   destruct (sys_step i s o) as [s' f] eqn:Es. cbn [fst] in HR', HC, HS.
   cbn [P_from]. pose proof HR' as [HI' HL'].
   rewrite (check_cron_observe _ _ _ _ HI'), orb_true_r, ?o_cron_observe, ?o_fire_observe. cbn [andb].
-  destruct o as [c id|c id|h|h|c|n| |ns| |].
+  destruct o as [c id|c id|h|h|c|n| |ns| | |].
   - cbn [andb]. apply IH; [exact HR' | now rewrite HC].
   - cbn [andb]. apply IH; [exact HR' | now rewrite HC].
   - cbn [andb]. apply IH; [exact HR' | now rewrite HC].
@@ -1102,6 +1102,8 @@ Proof.
     eapply Permutation_trans; [exact HP | apply Permutation_sym, Hr].
   - (* OStop *)
     cbn [andb]. apply IH; [exact HR' | now rewrite HC].
+  - (* OSmStart *)
+    cbn [andb]. apply IH; [exact HR' | now rewrite HC].
 Qed.
 
 Lemma P_holds i : P i (run_model i) = true.
@@ -1120,8 +1122,8 @@ Proof.
   induction ops as [|o ops IH]; intros s; [reflexivity|].
   cbn [fold_left flat_map]. rewrite fold_left_app, IH. f_equal.
   pose proof (step_sm_links i s o) as HS.
-  destruct o as [c id|c id|h|h|c|n| |ns| |]; cbn [induced fold_left sm_step].
-  5-10: destruct HS as [S1 _]; exact S1.
+  destruct o as [c id|c id|h|h|c|n| |ns| | |]; cbn [induced fold_left sm_step].
+  5-11: destruct HS as [S1 _]; exact S1.
   - reflexivity.
   - reflexivity.
   - cbn [sys_step]. rewrite enable_split. reflexivity.
@@ -1287,7 +1289,7 @@ Proof.
   rewrite step_ch.
   assert (Hd : (length (buf (snd (ch_drain_all (s_ch s)))) <= ch_cap)%nat).
   { destruct (ch_drain_all (s_ch s)) as [r k] eqn:D. destruct (ch_drain_all_spec _ _ _ D) as [_ ->]. cbn. lia. }
-  destruct o as [c id|c id|h|h|c|n| |ns| |]; try exact H; try exact Hd.
+  destruct o as [c id|c id|h|h|c|n| |ns| | |]; try exact H; try exact Hd.
   - destruct (nth_error (cron (s_sm s)) (N.to_nat n)); [exact Hd | exact H].
   - destruct (ch_start_lengths (fired_strings (cron (s_sm s)) ns) (s_ch s) H) as [E _]. rewrite E. apply Nat.le_min_l.
 Qed.
@@ -1309,7 +1311,7 @@ Lemma stop_is_not_looked_at i s o b :
   /\ s_sm (fst (sys_step i s2 o)) = s_sm (fst (sys_step i s o))
   /\ s_ch (fst (sys_step i s2 o)) = s_ch (fst (sys_step i s o)).
 Proof.
-  cbv zeta. destruct o as [c id|c id|h|h|c|n| |ns| |]; cbn [sys_step s_links s_sm s_ch s_stopped with_ch].
+  cbv zeta. destruct o as [c id|c id|h|h|c|n| |ns| | |]; cbn [sys_step s_links s_sm s_ch s_stopped with_ch].
   - repeat split.
   - repeat split.
   - destruct (enable _ _ _) as [m s']. repeat split.
@@ -1320,5 +1322,6 @@ Proof.
   - destruct (ch_drain_all (s_ch s)) as [r k]. repeat split.
   - repeat split.
   - destruct (ch_drain_all (s_ch s)) as [r k]. repeat split.
+  - repeat split.
   - repeat split.
 Qed.
